@@ -167,7 +167,10 @@ def main():
 
     if a.replay:
         body = json.load(open(a.replay))
-        still = mod.replay(body['case'])
+        case_ = body['case']
+        if isinstance(case_, dict) and case_.get('no_failing_input_found') and isinstance(case_.get('first_case'), dict):
+            case_ = case_['first_case']       # a broken correspondence: the replay is the first case on which model and code differed
+        still = mod.replay(case_)
         if still:
             print('replay still fails: %s' % still)
             print('VIOLATION property=%s replay=%s' % (pid, a.replay))
